@@ -105,7 +105,8 @@ def uses_in_recursion(body, names, rec_callees, self_worklist=True):
 
     for n in walk(body):
         k = kind(n)
-        if k in ("Call", "MethodCall") and callee(n) in rec_callees:
+        c = callee(n) if k in ("Call", "MethodCall") else None
+        if k in ("Call", "MethodCall") and (c in rec_callees or (isinstance(c, tuple) and ("local", c[1]) in rec_callees)):
             for a in hirq.call_args(n):
                 used |= names_in(a)
         elif self_worklist and k == "Assign":
@@ -128,6 +129,10 @@ def check(crate, fn, enum_path, rec_callees=None):
         return None, None
     m = max(ms, key=lambda x: len(x["arms"]))
     rec_callees = set(rec_callees or ()) | {fn["path"]}
+    # helpers: local closures (and same-crate fns called here) that pass their argument into the recursion
+    for lid, (init, st) in hirq.lets(fn["body"]).items():
+        if kind(init) == "Closure" and any(kind(x) in ("Call", "MethodCall") and callee(x) in rec_callees for x in walk(init["body"])):
+            rec_callees.add(("local", lid))
     inst, holes = [], []
     for v, idxs in rf.items():
         if not idxs:
